@@ -7,7 +7,7 @@ use crate::{
         qos_policy::{DestinationOrderQosPolicyKind, HistoryQosPolicyKind, OwnershipQosPolicyKind},
         sample_info::{InstanceStateKind, SampleInfo, SampleStateKind, ViewStateKind},
         status::SampleRejectedStatusKind,
-        time::{DurationKind, TIME_INVALID_NSEC, TIME_INVALID_SEC, Time},
+        time::{Duration, DurationKind, TIME_INVALID_NSEC, TIME_INVALID_SEC, Time},
     },
     transport::types::{ChangeKind, Guid},
 };
@@ -89,6 +89,10 @@ impl InstanceState {
 
     pub fn last_received_time_stamp(&self) -> Time {
         self.last_received_time_stamp
+    }
+
+    pub fn start_next_deadline_period(&mut self, deadline_period: Duration) {
+        self.last_received_time_stamp = self.last_received_time_stamp + deadline_period;
     }
 }
 
